@@ -84,15 +84,146 @@ GENERATED = {
 }
 
 
+# Generated KERNELS (metadata only matters for the PSy layer): kernels whose
+# iteration space comes from an LMA operator they write - the loop then includes
+# the level-1 halo whatever the operator's spaces - and that also modify / read
+# fields on continuous and discontinuous spaces; and simple readers.
+# argument = ("op", access, to, from) | ("f", access, space[, stencil])
+GEN_KERNELS = {
+    "c22k_op_w2w3_inc_w1":    [("op", "gh_write", "w2", "w3"),
+                               ("f", "gh_inc", "w1")],
+    "c22k_op_w3w3_inc_w0":    [("op", "gh_readwrite", "w3", "w3"),
+                               ("f", "gh_inc", "w0"),
+                               ("f", "gh_read", "w2", "cross")],
+    "c22k_op_wthw1_rinc_w2":  [("op", "gh_write", "wtheta", "w1"),
+                               ("f", "gh_readinc", "w2"),
+                               ("f", "gh_readwrite", "w3")],
+    "c22k_op_w0w0_write_w1":  [("op", "gh_write", "w0", "w0"),
+                               ("f", "gh_write", "w1"),
+                               ("f", "gh_read", "w3")],
+    "c22k_op_w1wth_wr_wth":   [("op", "gh_write", "w1", "wtheta"),
+                               ("f", "gh_write", "wtheta"),
+                               ("f", "gh_read", "w1")],
+    # operator only read: the loop space comes from the modified field
+    "c22k_opread_rw_w3":      [("op", "gh_read", "w2", "w3"),
+                               ("f", "gh_readwrite", "w3"),
+                               ("f", "gh_read", "w2")],
+    "c22k_opread_inc_w2":     [("op", "gh_read", "w2", "w3"),
+                               ("f", "gh_inc", "w2"),
+                               ("f", "gh_read", "w3")],
+    # readers: over the level-1 halo (gh_inc w1) / over owned cells (w3)
+    "c22k_rd_w0": [("f", "gh_inc", "w1"), ("f", "gh_read", "w0")],
+    "c22k_rd_w1": [("f", "gh_inc", "w1"), ("f", "gh_read", "w1")],
+    "c22k_rd_w2": [("f", "gh_inc", "w1"), ("f", "gh_read", "w2")],
+    "c22k_rd_w3": [("f", "gh_inc", "w1"), ("f", "gh_read", "w3")],
+    "c22k_rd_wth": [("f", "gh_inc", "w1"), ("f", "gh_read", "wtheta")],
+    "c22k_ord_w1": [("f", "gh_readwrite", "w3"), ("f", "gh_read", "w1")],
+    "c22k_ord_w2": [("f", "gh_readwrite", "w3"), ("f", "gh_read", "w2")],
+    "c22k_srd_w3": [("f", "gh_readwrite", "w3"),
+                    ("f", "gh_read", "w3", "cross")],
+    "c22k_srd_wth": [("f", "gh_readwrite", "w3"),
+                     ("f", "gh_read", "wtheta", "cross")],
+}
+
+
+def kernel_text(name):
+    lines = []
+    for arg in GEN_KERNELS[name]:
+        if arg[0] == "op":
+            lines.append(f"arg_type(gh_operator, gh_real, {arg[1]}, {arg[2]}, "
+                         f"{arg[3]})")
+        elif len(arg) > 3:
+            lines.append(f"arg_type(gh_field, gh_real, {arg[1]}, {arg[2]}, "
+                         f"stencil({arg[3]}))")
+        else:
+            lines.append(f"arg_type(gh_field, gh_real, {arg[1]}, {arg[2]})")
+    meta = ", &\n             ".join(lines)
+    return f'''module {name}_mod
+  use argument_mod
+  use fs_continuity_mod
+  use kernel_mod
+  use constants_mod
+  implicit none
+  type, extends(kernel_type) :: {name}_type
+     type(arg_type), dimension({len(lines)}) :: meta_args = &
+          (/ {meta} &
+           /)
+     integer :: operates_on = cell_column
+   contains
+     procedure, nopass :: code => {name}_code
+  end type {name}_type
+contains
+  subroutine {name}_code()
+  end subroutine {name}_code
+end module {name}_mod
+'''
+
+
+# algorithm files over the generated kernels: list of (kernel, actual arguments)
+GENERATED_OP = {
+    # the operator's from-space is discontinuous, a continuous field is
+    # incremented; read afterwards in the level-1 halo and on owned cells
+    "gen_c22_op_inc_then_read.f90": [
+        ("c22k_op_w2w3_inc_w1", "op1, f1"), ("c22k_rd_w1", "g1, f1"),
+        ("c22k_ord_w1", "d1, f1")],
+    "gen_c22_op_inc_w0_stencil.f90": [
+        ("c22k_op_w3w3_inc_w0", "op1, f0, f2, e1"), ("c22k_rd_w0", "g1, f0"),
+        ("c22k_rd_w2", "g2, f2")],
+    "gen_c22_op_readinc_rw.f90": [
+        ("c22k_op_wthw1_rinc_w2", "op1, f2, f3"), ("c22k_rd_w2", "g1, f2"),
+        ("c22k_rd_w3", "g2, f3"), ("c22k_srd_w3", "d1, f3, e1")],
+    "gen_c22_op_write_cont.f90": [
+        ("c22k_op_w0w0_write_w1", "op1, f1, f3"), ("c22k_rd_w1", "g1, f1"),
+        ("c22k_ord_w1", "d1, f1")],
+    "gen_c22_op_write_disc.f90": [
+        ("c22k_op_w1wth_wr_wth", "op1, ft, f1"), ("c22k_rd_wth", "g1, ft"),
+        ("c22k_srd_wth", "d1, ft, e1")],
+    "gen_c22_opread.f90": [
+        ("c22k_opread_rw_w3", "op1, f3, f2"), ("c22k_rd_w3", "g1, f3"),
+        ("c22k_opread_inc_w2", "op1, f2, f3"), ("c22k_ord_w2", "d1, f2")],
+    # a built-in leaves the field's annexed dofs stale before the operator
+    # kernel increments it
+    "gen_c22_builtin_op_inc.f90": [
+        ("setval_c", "f1, 0.0_r_def"), ("c22k_op_w2w3_inc_w1", "op1, f1"),
+        ("c22k_rd_w1", "g1, f1")],
+}
+
+
 def generated_text(name):
-    return _GEN_HEAD + GENERATED[name] + "end program c22_gen\n"
+    if name in GENERATED:
+        return _GEN_HEAD + GENERATED[name] + "end program c22_gen\n"
+    calls = GENERATED_OP[name]
+    kerns = sorted({k for k, _ in calls if k in GEN_KERNELS})
+    uses = "".join(f"  use {k}_mod, only: {k}_type\n" for k in kerns)
+    body = ", &\n               ".join(
+        (f"{k}_type({a})" if k in GEN_KERNELS else f"{k}({a})")
+        for k, a in calls)
+    return (f"program c22_gen_op\n  use constants_mod, only: r_def, i_def\n"
+            f"  use field_mod,    only: field_type\n"
+            f"  use operator_mod, only: operator_type\n{uses}"
+            f"  implicit none\n"
+            f"  type(field_type)    :: f0, f1, f2, f3, ft, g1, g2, d1\n"
+            f"  type(operator_type) :: op1\n  integer(i_def) :: e1\n"
+            f"  call invoke( {body} )\nend program c22_gen_op\n")
+
+
+def generated_kernels(name):
+    '''{file name: text} of the generated kernels an algorithm file uses.'''
+    if name not in GENERATED_OP:
+        return {}
+    return {f"{k}_mod.f90": kernel_text(k)
+            for k, _ in GENERATED_OP[name] if k in GEN_KERNELS}
+
+
+def is_generated(name):
+    return name in GENERATED or name in GENERATED_OP
 
 
 def list_files():
     # algorithm files only: the kernel modules (*_mod.f90) live alongside
     return sorted(f for f in os.listdir(test_dir())
                   if f.endswith(".f90") and not f.endswith("_mod.f90")) \
-        + sorted(GENERATED)
+        + sorted(GENERATED) + sorted(GENERATED_OP)
 
 
 # ------------------------------------------------------------ schedule metadata
@@ -345,13 +476,17 @@ def work(job):
            "generr": 0, "unsupported": [], "parse_error": None, "invokes": 0}
     Config.get().api_conf("lfric")._compute_annexed_dofs = False
     try:
-        if fname in GENERATED:
+        if is_generated(fname):
             gdir = core.mktemp("pv-c22-alg-")
             try:
                 with open(os.path.join(gdir, fname), "w") as fobj:
                     fobj.write(generated_text(fname))
+                for kname, ktext in generated_kernels(fname).items():
+                    with open(os.path.join(gdir, kname), "w") as fobj:
+                        fobj.write(ktext)
                 _, info = parse(os.path.join(gdir, fname), api="dynamo0.3",
-                                kernel_paths=[test_dir()])
+                                kernel_paths=([gdir] if fname in GENERATED_OP
+                                              else [test_dir()]))
             finally:
                 shutil.rmtree(gdir, ignore_errors=True)
         else:
